@@ -623,6 +623,37 @@ def main():
 
     body_def("securityEngineIsDiscovered", ": Bool", engine_ids_builder, "false")
 
+    def pywrapper_args_builder():
+        # PyWrapper: every public method that delegates to `self.client.<same name>` hands every one of its
+        # own parameters on (directly, or through a local computed from it) — nothing the caller passes
+        # (`errors`, `bulk_size`, `max_list_size`, `_rowtype`) is dropped on the way
+        from puresnmp.api import pythonic as PY
+
+        cls = ast.parse(textwrap.dedent(inspect.getsource(PY.PyWrapper))).body[0]
+        seen = 0
+        for fn in cls.body:
+            if not isinstance(fn, (ast.AsyncFunctionDef, ast.FunctionDef)) or fn.name.startswith("_"):
+                continue
+            params = [a.arg for a in fn.args.args[1:]] + [a.arg for a in fn.args.kwonlyargs]
+            calls = [c for c in ast.walk(fn) if isinstance(c, ast.Call) and ast.unparse(c.func) == f"self.client.{fn.name}"]
+            if not calls:
+                continue
+            if len(calls) != 1:
+                return "false"
+            seen += 1
+            flows = {}
+            for st in ast.walk(fn):
+                if isinstance(st, ast.Assign) and len(st.targets) == 1 and isinstance(st.targets[0], ast.Name):
+                    flows.setdefault(st.targets[0].id, set()).update(n.id for n in ast.walk(st.value) if isinstance(n, ast.Name))
+            used = set(n.id for a in list(calls[0].args) + [k.value for k in calls[0].keywords] for n in ast.walk(a) if isinstance(n, ast.Name))
+            for _ in range(4):
+                used |= set(x for u in list(used) for x in flows.get(u, ()))
+            if any(p not in used for p in params):
+                return "false"
+        return "true" if seen >= 9 else "false"
+
+    body_def("pyWrapperPassesArgs", ": Bool", pywrapper_args_builder, "false")
+
     # ---- reflected data --------------------------------------------------------------
     def fact(name, typ, builder, stub):
         try:
